@@ -1,5 +1,6 @@
 #!/bin/bash
 # corpus.sh [benign|seeded|all] : regression over the stored patch corpus.
+#   CORPUS_ONLY=<regex> restricts the run to matching patch names
 #   benign/*.diff  behaviour-preserving rewrites -> every check must stay silent (a VIOLATION is a false alarm)
 #   seeded/*/patch.diff  property-breaking changes -> the property's own check must report a VIOLATION
 # Facts of each patched tree are extracted once (sequentially, /repo is patched and restored each time), then all 20
@@ -10,6 +11,7 @@ PF=/verif/.cache/pf; mkdir -p $PF
 list=()
 if [ "$WHAT" != seeded ]; then for d in benign/*.diff; do list+=("benign:$(basename $d .diff):$d"); done; fi
 if [ "$WHAT" != benign ]; then for d in seeded/*/patch.diff; do list+=("seeded:$(basename $(dirname $d)):$d"); done; fi
+if [ -n "${CORPUS_ONLY:-}" ]; then tmp=(); for e in "${list[@]}"; do IFS=: read kind name diff <<< "$e"; [[ "$name" =~ $CORPUS_ONLY ]] && tmp+=("$e"); done; list=("${tmp[@]}"); fi
 for e in "${list[@]}"; do
   IFS=: read kind name diff <<< "$e"
   f=$PF/$kind-$name.json
